@@ -21,7 +21,14 @@ RULE = ('a case = (reference SDR device: repository and device-SDR store of 0..4
         'store and no Reserve of the other store is ever issued; reads that fit the budget (limit >= 5, iterations <= 19, <= 2 cancellations, no transients) complete.  '
         'Directed: lengths 5,6,24,25,26,64,255..260 x limits 3,4,5,8,12,16,19,20,21,255; a cancellation / transient before '
         'every request index of the fault-free run, pairs and triples of cancellations.  Distinct by (device, operation); '
-        'non-trivial = at least three exchanges.')
+        'non-trivial = at least three exchanges.  HISTORIES on ONE Ipmi object over BOTH stores against one device: store '
+        'A read or listed, then store B read or listed with a cancellation / a C3h|CEh before EVERY request index, then '
+        'back to A with a cancellation at every index (all four get/list combinations, both orders); random sequences '
+        'of 2..5 operations alternating between the stores with cancellations and transients.  Every step is judged by '
+        'the same oracles against the device as it stands when the step starts, and must equal - outcome and trace - the '
+        'same operation by a fresh Ipmi object on a fresh device in that state, which is what the Lean model computes '
+        '(no state between calls); a violation a fresh object does not show is reported as ...:after-earlier-operations '
+        'with the shrunk history.')
 ASSUMPTIONS = [
     'the device is the Lean reference device (Spec/SdrDevice.lean, IPMI v2.0 33.11/33.12/35.3/35.4): exactly the requested '
     'bytes or CAh above its limit, C5h for a missing/stale reservation, CBh for an unknown record, C9h out of range; its '
@@ -32,6 +39,8 @@ ASSUMPTIONS = [
     'record parsing (SdrCommon.from_data) is not part of the model: generated records use types the library does not parse '
     'beyond the common header; C16 covers parsing',
     'Python lists have no iteration bound: the model gives the listing fuel = number of records + 1 (theorem fuel_suffices)',
+    'history steps pass no caller reservation (each starts with its own Reserve), so the reservation an earlier step left '
+    'valid in the device cannot matter and a step is comparable with a fresh device in the same state',
     'request fields wider than the codec fields are truncated by the codec (ids 16 bit, offset/count 8 bit); the theorems assume '
     'record ids < 65536',
 ]
